@@ -109,9 +109,10 @@ type golden struct {
 	responses []string          // per step: response body ("" for snapshot steps)
 	tables    map[uint64]string // version (= number of events) -> hash of the three tree tables
 	probes    map[uint64][]string
-	total     int   // events
-	ready     int64 // boundaries passed when the server reported ready
-	n         int64 // boundaries of the whole run
+	index     map[uint64]uint64 // version -> raft index of the entry that produced it
+	total     int               // events
+	ready     int64             // boundaries passed when the server reported ready
+	n         int64             // boundaries of the whole run
 	trace     []string
 }
 
@@ -220,13 +221,14 @@ func runGolden(r *ev.Run, h history, base string) *golden {
 		return nil
 	}
 	defer func() { c.Kill(); os.RemoveAll(db); os.RemoveAll(rf) }()
-	g := &golden{tables: map[uint64]string{}, probes: map[uint64][]string{}, ready: c.Ready.Boundaries}
+	g := &golden{tables: map[uint64]string{}, probes: map[uint64][]string{}, index: map[uint64]uint64{}, ready: c.Ready.Boundaries}
 	record := func() bool {
 		st, err := c.Do(nx.Req{Op: "state"})
 		if err != nil {
 			return false
 		}
 		g.tables[st.Version] = st.Tables
+		g.index[st.Version] = st.FsmIndex
 		p, err := probe(c, int(st.Version))
 		if err != nil {
 			return false
@@ -358,6 +360,11 @@ func recoverAndCheck(r *ev.Run, h history, g *golden, db, rf string, diedAt, ack
 	}
 	if st.FsmVersion+1 != st.Version && !(st.Version == 0 && st.FsmVersion == 0) {
 		r.Violation("after a crash the persisted applied-state and the tree version disagree", map[string]interface{}{"case": kc, "treeVersion": st.Version, "fsmVersion": st.FsmVersion})
+	}
+	// an acknowledged request is a committed entry of the replicated log: the log cannot be shorter
+	// than it was when the last acknowledged request was answered
+	if st.RaftLast < g.index[uint64(acked)] {
+		r.Violation("after a crash the replicated log no longer holds the entries of acknowledged requests", map[string]interface{}{"case": kc, "raftLastIndex": st.RaftLast, "indexOfLastAcknowledgedEntry": g.index[uint64(acked)]})
 	}
 	if want, okk := g.tables[st.Version]; !okk || want != st.Tables {
 		r.Violation("after a crash the stored trees are not those of a prefix of the committed log applied exactly once", map[string]interface{}{"case": kc, "version": v})
